@@ -214,6 +214,17 @@ def run(ctx):
     _check_site(ctx, pn, "self", {"divisor"}, lambda p: True, ["frequencies", "errors2"], "rows/columns")
     from rules import wiring
     wiring.axis_resolved(ctx, "C06.a", pn)
+    # the divisor of partial_normalize is the sum of the CONTENTS along the other axis (kept broadcastable), zeros replaced by 1
+    dv = {}
+    for p_ in function_paths(pn.node):
+        cs_ = dict((U(s_[1]), s_[2]) for s_ in p_ if s_[0] == "cond")
+        if "axis == 0" in cs_ and end_kind(p_) != "raise":
+            d_ = [U(s_[1].value) for s_ in p_ if s_[0] == "stmt" and isinstance(s_[1], ast.Assign) and U(s_[1].targets[0]) == "divisor"]
+            dv[cs_["axis == 0"]] = d_[0] if d_ else None
+    okdv = dv == {True: "np.atleast_1d(self._frequencies.sum(axis=0))", False: "np.atleast_2d(self._frequencies.sum(axis=1)[:, np.newaxis])"}
+    ctx.check(okdv and "divisor[divisor == 0] = 1" in U(pn.node), "C06.a", "Histogram2D.partial_normalize:divisor",
+              "axis 0: column sums of the frequencies; axis 1: row sums as a column; empty rows / columns divide by 1",
+              f"divisor per `axis == 0` decision: {dv}", pn.where)
     nb = HC.methods.get("normalize_bins")
     lv = [n.target.id for n in ast.walk(nb.node) if isinstance(n, ast.For) and isinstance(n.target, ast.Name)]
     if not lv:
@@ -228,6 +239,17 @@ def run(ctx):
               f"the per-bin divisor is `{U(defs[0]) if defs else None}`, not the plain per-bin sum over all members "
               "(the members' shares of a bin no longer add up to 1)", nb.where)
 
+    # both collection normalisations work on `self` in place or on a copy, and return it; normalize_all normalises every member
+    for nm in ("normalize_bins", "normalize_all"):
+        f_ = HC.methods[nm]
+        t_ = U(f_.node)
+        sel = "col = self if inplace else self.copy()" in t_
+        rets_ = [U(n.value) for n in ast.walk(f_.node) if isinstance(n, ast.Return)]
+        lp_ = [n for n in ast.walk(f_.node) if isinstance(n, ast.For) and U(n.iter) == "col.histograms"]
+        okm = bool(lp_) and (nm != "normalize_all" or any(isinstance(b, ast.Expr) and U(b.value) == f"{U(lp_[0].target)}.normalize(inplace=True)" for b in lp_[0].body))
+        ctx.check(sel and rets_ == ["col"] and okm, "C06.a", f"HistogramCollection.{nm}:target",
+                  "col = self if inplace else self.copy(); every member of col rescaled in place; col returned",
+                  f"{nm}: selects its target with `col = self if inplace else self.copy()`: {sel}; returns {rets_}; member loop ok: {okm}", f_.where)
     check_stats_mul(ctx, "C06.a", m)
     sm = m.cls("Statistics").methods.get("__mul__")
 
